@@ -33,7 +33,7 @@ ASSUMPTIONS = ["message attributes are Python ints / bools / lists of ints / byt
 
 def enc_case(spec):
     """never raises: a constructor that raises or an instance that cannot be dumped is an Unexpected case"""
-    term, o, err = L.safe_obj_term(lambda: L.build(spec))
+    term, o, err = L.safe_obj_term(lambda: L.build(spec), spec)
     if err is not None:
         obs = L.unexpected("bytes", "cannot build/dump %s: %s" % (spec[0], err))
         return Case("(OIllegal 0, %s)" % obs, {"class": spec[0], "args": repr(spec[1:])[:600], "observed": obs[:400]},
